@@ -21,7 +21,7 @@ RULE = ('random layered dependency graphs over 1-3 sheets (quick <=8 formula cel
         'entry inside and outside the cycle, and whole-file mode. Non-trivial: (graph, entry) whose closure has >=3 cells and '
         'crosses a sheet or goes through an area; cyclic: each (graph, mode); distinct by construction index')
 ASSUMPTIONS = ['the whole-file translation is the reference for the values of the slice', 'closure computed by vf/xlref (parse of every reference form) - blank closure cells need no member']
-FLOORS = {'quick': {'evaluations': 4000, 'nontrivial': 500, 'counters': {'closure_cells_compared': 3000, 'cyclic_cases': 100}},
+FLOORS = {'quick': {'evaluations': 4000, 'nontrivial': 500, 'counters': {'closure_cells_compared': 3000, 'cyclic_cases': 100, 'shared_precedent_graphs': 4}},
           'thorough': {'evaluations': 120000, 'nontrivial': 15000, 'counters': {'closure_cells_compared': 100000, 'cyclic_cases': 1500}}}
 
 COLS = 'ABCD'
@@ -36,7 +36,10 @@ def sref(rng, own, title, addr, absolute=True):
         col = ''.join(c for c in a if c.isalpha())
         row = a[len(col):]
         return rng.choice([f'${col}${row}', f'${col}{row}', f'{col}${row}'])
-    body = ':'.join(ab(p) for p in addr.split(':')) if addr[0].isalpha() and any(ch.isdigit() for ch in addr) else addr
+    parts = addr.split(':')
+    if len(parts) == 2 and rng.random() < 0.2:
+        parts.reverse()          # the corners the other way round (B2:A1, C:A): the same area, the same precedents in the slice
+    body = ':'.join(ab(p) for p in parts) if addr[0].isalpha() and any(ch.isdigit() for ch in addr) else ':'.join(parts)
     if title == own and rng.random() < 0.7:
         return body
     if ' ' in title or rng.random() < 0.3:
@@ -436,11 +439,62 @@ def run_cycle(ctx, spec, first, kind, length, idx):
         report(r, ID, None, {'spec': spec, 'cycle_kind': kind, 'mode': 'entry-not-reaching-the-cycle'}, t.brief(), 'a slice', monitor='translate-acyclic')
 
 
+STEP_BUDGET = 8_000_000      # five times what the unchanged tree needs for the largest of these graphs (1.5 million function entries)
+
+
+def shared_graphs(rng, tier):
+    """dependency graphs whose precedents are SHARED: a cell used twice by its successor, two-term recurrences, lattices - the number of
+    PATHS to the first row doubles with every row, the number of cells does not"""
+    n = rng.randrange(34, 46)
+    out = []
+    cells = {'A1': 100}
+    for i in range(2, n + 1):
+        cells[f'A{i}'] = f'=A{i - 1}+A{i - 1}*0.05'
+    out.append(('interest', wbspec.spec(wbspec.sheet('Main', cells)), [(0, f'A{n}'), (0, f'A{n // 2}')]))
+    cells = {'C1': 100}
+    for i in range(1, n + 1):
+        cells[f'A{i}'] = i % 7
+    for i in range(2, n + 1):
+        cells[f'C{i}'] = f'=IF(C{i - 1}>0,C{i - 1}+A{i},0)'
+    out.append(('running-if', wbspec.spec(wbspec.sheet('Main', cells)), [(0, f'C{n}')]))
+    cells = {'B1': 1, 'B2': 1}
+    for i in range(3, n + 1):
+        cells[f'B{i}'] = f'=B{i - 1}+B{i - 2}'
+    out.append(('fibonacci', wbspec.spec(wbspec.sheet('Main', cells)), [(0, f'B{n}')]))
+    cells = {f'{c}1': k + 1 for k, c in enumerate('ABCD')}
+    m = min(n, 36)
+    for i in range(2, m + 1):
+        for k, c in enumerate('ABCD'):
+            left, right = 'ABCD'[(k - 1) % 4], 'ABCD'[(k + 1) % 4]
+            cells[f'{c}{i}'] = rng.choice([f'=MAX({left}{i - 1},{right}{i - 1})+1', f'={left}{i - 1}+{right}{i - 1}-{c}{i - 1}', f'=IFERROR({left}{i - 1}/{right}{i - 1},0)+{c}{i - 1}',
+                                           f'=ROUND(({left}{i - 1}+{right}{i - 1})/2,3)', f'=SUM({left}{i - 1}:{right}{i - 1})' if k in (1, 2) else f'=SUM({c}{i - 1},{right}{i - 1},{left}{i - 1})'])
+    out.append(('lattice', wbspec.spec(wbspec.sheet('Main', cells), wbspec.sheet('Data_2', {'A1': f"=Main!B{m}+Main!C{m}"})), [(0, f'B{m}'), (1, 'A1')]))
+    return out
+
+
+def run_shared(ctx):
+    from ..instr.interp import StepBudget, StepBudgetExceeded
+    r, rng = ctx.r, ctx.rng
+    for rep in range(1 if ctx.tier == 'quick' else 6):
+        for kind, spec, entries in shared_graphs(rng, ctx.tier):
+            r.count('shared_precedent_graphs')
+            try:
+                # linear work: a few thousand function entries per cell and query; 2^34 paths are far beyond any budget
+                with StepBudget(STEP_BUDGET, persistent=True) as sb:
+                    run_dag(ctx, spec, entries, (ctx.shard_index, 900 + rep))
+                r.counters['shared_graph_steps_max'] = max(r.counters.get('shared_graph_steps_max', 0), sb.steps)
+            except StepBudgetExceeded as e:
+                report(r, ID, None, {'spec': spec, 'entry': list(entries[0]), 'graph': kind}, str(e),
+                       'the value of the entry cell within a number of steps proportional to the number of cells', monitor='evaluation-steps-exponential')
+    r.sample({'shared_precedents': ['An = A(n-1)+A(n-1)*0.05', 'Cn = IF(C(n-1)>0,C(n-1)+An,0)', 'Bn = B(n-1)+B(n-2)', '4-column lattice']})
+
+
 def plan(tier, seed):
     n, parts = (200, 10) if tier == 'quick' else (3000, 30)
     shards = [{'kind': 'dag', 'n': n // parts, 'max': 8 if tier == 'quick' else 14} for _ in range(parts)]
     for rep in range(1 if tier == 'quick' else 12):
         shards.append({'kind': 'cyc', 'rep': rep})
+    shards.append({'kind': 'shared'})
     return shards
 
 
@@ -454,6 +508,8 @@ def run_shard(shard, ctx):
         if 'entry' in c:
             return run_dag(ctx, c['spec'], [tuple(c['entry'])], 0)
         return run_dag(ctx, c['spec'], [], 0)
+    if shard['kind'] == 'shared':
+        return run_shared(ctx)
     if shard['kind'] == 'dag':
         for i in range(shard['n']):
             spec, formulas = make_graph(rng, shard['max'])
